@@ -41,7 +41,8 @@ def call(f, *a, **k):
 
 def targets(rng, depth):
     base = rng.choice(["http://t.com/x", "https://t.org", "t.com/y", "/x", "/?u=/x", "//t.com/z", "/a/../b", "http://", "https://", "ftp://t.com", "lemonde.fr", "", "/", "%2Fx",
-                       "http://[::1?u=/x", "http://b.com]/?next=/y"])
+                       "http://[::1?u=/x", "http://b.com]/?next=/y",
+                       "https://plus.google.com/+Medialab", "http://t.com/a+b?c=d+e", "t.com/+", "/x+y"])
     if depth > 0 and rng.random() < 0.6:
         base = gen_url(rng, depth - 1)
     return base
